@@ -7,6 +7,8 @@
       Theorem spelling_irrelevant : forall doc bind a sp1 sp2,
         ok_spelling a sp1 -> ok_spelling a sp2 ->
         query_model doc bind (spell a sp1) = query_model doc bind (spell a sp2).
+      (proved: [parse_spell], and [spelling_irrelevant_partial] = the second statement for the
+      values, under the hypotheses listed below)
 
     where [a : xexpr] ranges over all abstract syntax trees of XPath 1.0 (Spec/XPathSyntax.v), a
     spelling [sp] of [a] is ANY tree derivable from the grammar of the recommendation that the
@@ -33,17 +35,56 @@
       [parse_expr_total] / [parse_expr_never_panics] (on every string: a tree or a syntax error;
       no [unreachable!()] arm is reached).  The cost bound is established by the check only.
 
-    MISSING: [spelling_irrelevant].  It follows from [parse_spell] once the evaluator model
-    (Model/XPathEval.v, property C05) is shown to respect [≈]; until then that half is
-    established by the failing-input search of checks/C08.py on the real [query] (every
-    generated spelling pair is evaluated on documents).  The two canonical
-    spellings computed by Spec/XPathSyntax.v ARE proved to be spellings: [paren] (minimal
-    parentheses: [every_tree_has_a_spelling], [parse_spell_minimal]) and [abbreviate] (every
-    abbreviation that applies: [parse_spell_abbreviated]); [spellings_agree] is the syntactic half
-    of [spelling_irrelevant]. *)
+    - the evaluation half, [spelling_irrelevant_partial]: [query_model doc bind s] is
+      xpath/src/lib.rs [query] on the models (parse [s] with [parse_expr], refuse unconsumed
+      input, evaluate the AST with Model/XPathEval.v [query] from the document node in a fresh
+      context carrying the bindings [bind]; Proofs/XPathSpellingMain.v).  For every document
+      table satisfying [DocInv] (the table is a tree and the order keys of its non-namespace
+      nodes are non-zero and increase in document order -- decidable, Model/XDocCheck.v
+      [doc_inv_b]; it fails only for documents with DTD-default attributes, finding D19), every
+      binding list without a default namespace, every tree [a] without the namespace axis
+      ([xnons a]) and ANY two spellings of [a] (parentheses, abbreviated or unabbreviated steps,
+      [//] or [/descendant-or-self::node()/], [n] or [position() = n], white space):
+        forall v, query_model doc bind (spell a sp1) = QValue v <->
+                  query_model doc bind (spell a sp2) = QValue v
+      i.e. the two strings evaluate to the SAME VALUE, or neither evaluates to a value
+      ([spelling_irrelevant_fails]).  Route: the parser returns exactly the tree spelled
+      ([parse_spell_surface]) and only ASTs in which every union has an operand
+      (Proofs/XPathParseShaped.v [parse_shaped]); on such ASTs the evaluator IS the evaluator
+      [xeval] composed along the abstract tree (Proofs/XPathAbsEval.v [eval_abs]: same result
+      and same context for every context, errors and panics included, no hypothesis on the
+      document -- parentheses are transparent because the [union_finish] of the single-operand
+      union branch is the identity on the strictly key-sorted value of an expression, and a left
+      fold of unions may finish its operands early: [uf_app_l], [uf_app_r]); [xeval a] and
+      [xeval (norm a)] have the same successful outcomes (Proofs/XPathSpelling.v [xeval_norm]):
+      [@], the omitted axis, [.] and [..] by computation, [n] against [position() = n] by
+      unfolding the call of [position()] (needs: no default namespace, see below), [//] by the
+      node-level description of what a list of steps selects (Proofs/XPathReach.v:
+      [xstepops_char], [path_char], [NI_equiv]).
+      [ex_same_value] / [ex_value] (Proofs/XPathSpellingExamples.v) instantiate it with
+      [//b[1]/..] against [( / descendant-or-self::node() / child::b [ position() = 1]/parent::node() )]
+      on a dumped document.
+
+    WHAT THE EVALUATION HALF DOES NOT SAY (the full statement above is FALSE for the model, hence
+    for the code, in these respects; [spelling_irrelevant_partial] is the strongest statement
+    that holds):
+    - when both spellings fail they may fail with DIFFERENT errors: [//x/y] runs the whole
+      relative path from one start node after the other, [/descendant-or-self::node()/x/y] runs
+      step [x] from all of them before step [y], so a failing predicate of [y] and a failing
+      predicate of [x] are met in different orders (both are errors, only the message differs);
+    - a default-namespace binding in the context ([Context::add_ns(None, ..)]) makes every
+      unprefixed function name unknown, so [a[position() = 1]] is an error where [a[1]] is not:
+      excluded by [ns_lookup bind None = None];
+    - the namespace axis and documents with DTD-default attributes (order key 0: finding D19)
+      are excluded because nodes with key 0 are exempt from the de-duplication after a step but
+      not from the final one.
+    The failing-input search of checks/C08.py still evaluates every generated spelling pair on
+    the real [query]. *)
 From Coq Require Import List NArith Arith Bool.
 From XmlRs Require Import Base.CPred Spec.XPathSyntax Model.Peg Model.XPathAst
   Model.ParseActionsXPath Model.XPathAstAbs Proofs.XPathParseExpr Proofs.XPathParseMain Proofs.XPathSyntaxLemmas Proofs.XPathParsePrecedence Proofs.XPathParseTotal.
+From XmlRs Require Model.XDoc Model.XPathEval Proofs.XPathCanon Proofs.XPathAstShaped Proofs.XPathParseShaped Proofs.XPathAbsEval
+  Proofs.XPathAbsInv Proofs.XPathSpellingMain Proofs.XPathSpellingExamples.
 Import ListNotations.
 
 (** [Theorem]s have their assumptions re-checked on every run of checks/C08.py; [Corollary]s are
@@ -169,6 +210,62 @@ Theorem fname_case_refuted : exists f : xqname,
   forall e, parse_expr (spell_surface (XCall f []) (W false [] [])) <> POk e [].
 Proof. exact fname_case_refuted_proof. Qed.
 
+(** ** the evaluation half *)
+
+(** the parser only produces ASTs in which every union has an operand *)
+Theorem parse_shaped : forall (s : str) e r, parse_expr s = POk e r -> XPathAstShaped.sh_or e = true.
+Proof. exact XPathParseShaped.parse_shaped. Qed.
+
+(** on such ASTs the evaluator of the Rust AST is the evaluator on the abstract tree: same result,
+    same context, for every document, context node and context *)
+Theorem eval_abs : forall doc (e : expr) n c, XPathAstShaped.sh_or e = true ->
+  XPathEval.eval_expr doc e n c = XPathAbsEval.xeval doc (abs_or e) n c.
+Proof. exact XPathAbsEval.eval_abs. Qed.
+
+(** two spellings of one tree evaluate to the same value, or neither evaluates to a value *)
+Theorem spelling_irrelevant_partial : forall doc bind a sp1 sp2,
+  ok_spelling a sp1 -> ok_spelling a sp2 ->
+  no_fname_case (surface sp1) = true -> no_fname_case (surface sp2) = true ->
+  XPathCanon.DocInv doc -> XPathEval.ns_lookup bind None = None -> XPathAbsInv.xnons a = true ->
+  forall v, XPathSpellingMain.query_model doc bind (spell a sp1) = XPathSpellingMain.QValue v <->
+            XPathSpellingMain.query_model doc bind (spell a sp2) = XPathSpellingMain.QValue v.
+Proof. exact XPathSpellingMain.spelling_irrelevant_ok_proof. Qed.
+
+Corollary spelling_irrelevant_fails : forall doc bind a sp1 sp2,
+  ok_spelling a sp1 -> ok_spelling a sp2 ->
+  no_fname_case (surface sp1) = true -> no_fname_case (surface sp2) = true ->
+  XPathCanon.DocInv doc -> XPathEval.ns_lookup bind None = None -> XPathAbsInv.xnons a = true ->
+  ((forall v, XPathSpellingMain.query_model doc bind (spell a sp1) <> XPathSpellingMain.QValue v) <->
+   (forall v, XPathSpellingMain.query_model doc bind (spell a sp2) <> XPathSpellingMain.QValue v)).
+Proof. exact XPathSpellingMain.spelling_irrelevant_fails_proof. Qed.
+
+(** the full statement does not hold: two spellings may fail with different errors ([//a[@k or foo()]/b[bar()]]
+    against [/descendant-or-self::node()/a[@k or foo()]/b[bar()]] on [<r><a k="1"><b/><a/></a></r>]:
+    NotFoundFunction(bar) against NotFoundFunction(foo), model and implementation) *)
+Theorem error_order_refuted : exists doc bind a sp1 sp2,
+  ok_spelling a sp1 /\ ok_spelling a sp2 /\
+  no_fname_case (surface sp1) = true /\ no_fname_case (surface sp2) = true /\
+  XPathCanon.DocInv doc /\ XPathEval.ns_lookup bind None = None /\ XPathAbsInv.xnons a = true /\
+  XPathSpellingMain.query_model doc bind (spell a sp1) <> XPathSpellingMain.query_model doc bind (spell a sp2).
+Proof. exact XPathSpellingExamples.error_order_refuted_proof. Qed.
+
+(** without the hypothesis on the bindings: [/*/*[1]] has a value, [/*/*[position() = 1]] is the error
+    NotFoundFunction(position) when the context binds a default namespace (model and implementation) *)
+Theorem default_namespace_refuted : exists doc bind a sp1 sp2 v,
+  ok_spelling a sp1 /\ ok_spelling a sp2 /\
+  no_fname_case (surface sp1) = true /\ no_fname_case (surface sp2) = true /\
+  XPathCanon.DocInv doc /\ XPathAbsInv.xnons a = true /\
+  XPathSpellingMain.query_model doc bind (spell a sp1) = XPathSpellingMain.QValue v /\
+  forall v', XPathSpellingMain.query_model doc bind (spell a sp2) <> XPathSpellingMain.QValue v'.
+Proof. exact XPathSpellingExamples.default_namespace_refuted_proof. Qed.
+
+(** the hypotheses are satisfiable by a non-trivial value: a dumped document, two different strings *)
+Check XPathSpellingExamples.ex_hypotheses.
+Check XPathSpellingExamples.ex_spell2_differs : spell XPathSpellingExamples.ex_short XPathSpellingExamples.ex_sp2 <> spell XPathSpellingExamples.ex_short XPathSpellingExamples.ex_sp1.
+Check XPathSpellingExamples.ex_value2 :
+  XPathSpellingMain.query_model XPathExamples.ex_doc [] (spell XPathSpellingExamples.ex_short XPathSpellingExamples.ex_sp2)
+  = XPathSpellingMain.QValue (XPathEval.XNodes [1%N]).
+
 Print Assumptions xpath_parse_terminates.
 Print Assumptions parse_expr_total.
 Print Assumptions parse_expr_never_panics.
@@ -187,3 +284,9 @@ Print Assumptions other_grouping_needs_parentheses.
 Print Assumptions unary_binds_tighter.
 Print Assumptions union_binds_tightest.
 Print Assumptions fname_case_refuted.
+Print Assumptions parse_shaped.
+Print Assumptions eval_abs.
+Print Assumptions spelling_irrelevant_partial.
+Print Assumptions spelling_irrelevant_fails.
+Print Assumptions error_order_refuted.
+Print Assumptions default_namespace_refuted.
